@@ -5,14 +5,9 @@ use std::io::{BufRead, Write};
 use std::panic;
 
 mod util;
-mod ops_ct;
-
-fn dispatch(op: &str, a: &[&str]) -> String {
-    if let Some(r) = ops_ct::run(op, a) {
-        return r;
-    }
-    "bad-op".to_string()
-}
+mod ops_all;
+mod ops_trace;
+use ops_all::dispatch;
 
 fn main() {
     let mode = std::env::args().nth(1).unwrap_or_else(|| "run".into());
@@ -26,6 +21,15 @@ fn main() {
             cfg!(feature = "force-32bits"),
             cfg!(debug_assertions)
         );
+        return;
+    }
+    if mode == "trace" {
+        let args: Vec<String> = std::env::args().skip(2).collect();
+        let a: Vec<&str> = args.iter().map(|s| s.as_str()).collect();
+        match ops_trace::run(a[0], &a[1..]) {
+            Some(r) => println!("{}", r),
+            None => println!("bad-op"),
+        }
         return;
     }
     panic::set_hook(Box::new(|_| {}));
